@@ -240,6 +240,49 @@ def run(F, R):
     R.rule("C13-R8", "lock discipline: no event is emitted while a mutex guard is held (a consumer that takes the same shared mutex between two polls would stop the flow for good), no mutex is taken while a guard of the same kind is held, and two kinds are always taken in the same order")
     from .. import locks as _locks
     _locks.check(R, "C13-R8", sm.w, [sm.c], floor_regions=12)
+    # .. and across the two halves of a `select!` that runs a check beside the control channel: while an arm's body runs,
+    # the check future is suspended, possibly inside one of its held regions (it keeps the app-set and storage mutexes across
+    # storage awaits).  Code in the control arm that takes a mutex the check takes waits for a guard only the suspended
+    # future can release: the task stops for good.
+    from .c11 import select_sites as _select_sites
+    Sr_ = sm.S_run
+    summ_ = _locks.Summaries(sm.w)
+    n_beside = 0
+    for (cx_, sn_, info_) in _select_sites(sm, Sr_):
+        tasks_ = [a_ for a_ in info_.values() if a_["kind"] in ("task", "other")]
+        ctrl_ = [a_ for a_ in info_.values() if a_["kind"] == "control"]
+        if not tasks_ or not ctrl_:
+            continue
+        n_beside += 1
+        # what the task beside it can acquire
+        held_kinds = set()
+        for a_ in tasks_:
+            for y_ in walk(a_["term"]):
+                if y_[0] == "agg" and y_[1] in ("coroutine", "closure") and y_[2] in sm.w.by_id:
+                    held_kinds |= set(summ_.of(sm.w.by_id[y_[2]])[0])
+                if y_[0] == "call":
+                    for cb_ in _locks._async_body(sm.w, sm.w.by_id.get(y_[1], {}).get("id") if y_[1] in sm.w.by_id else None):
+                        held_kinds |= set(summ_.of(cb_)[0])
+        if not held_kinds:
+            # the future is created elsewhere and only polled here: take what the whole check flow acquires
+            for b_ in sm.c.bodies:
+                if b_.get("item") == "start_update_check" or (b_.get("parent") and sm.w.by_id.get(b_["parent"], {}).get("item") == "start_update_check"):
+                    held_kinds |= set(summ_.of(b_)[0])
+        starts_ = [b for a_ in ctrl_ for (_, b) in a_["edges"]]
+        body_ = reach_pf(Sr_, starts_, cut_nodes=[sn_]) if starts_ else set()
+        taken_ = []
+        for x_ in body_:
+            nd_ = Sr_.nodes[x_]
+            if not smod.descends(nd_.ctx, cx_) or nd_.term["k"] != "call":
+                continue
+            k_ = _locks.lock_kind_of_call(sm.c, nd_.term)
+            if k_ is not None and k_ in held_kinds:
+                taken_.append((k_, nd_.loc()))
+        R.check("C13-R8", "control-arm-beside-check-takes-no-shared-mutex:" + (cx_.bv.body.get("item") or cx_.bv.id.split("::")[-2]), not taken_,
+                "the arm that answers requests while a check runs takes none of the mutexes the check holds across awaits (%s)" % sorted(held_kinds),
+                "the arm that answers requests while a check runs locks %s, which the suspended check may be holding: the task waits for itself" % sorted(set(k for k, _ in taken_)),
+                taken_[0][1] if taken_ else None)
+    R.floor("C13-R8", "selects that run a check beside the control channel", n_beside, 1)
 
 
 def _mentions(x, l):
